@@ -53,6 +53,9 @@ def assign_curves(ok):
     return None
 
 
+CALLS = [0]
+
+
 def run(ctx):
     rng = ctx.rng
     from sedfitter import plot, fit
@@ -66,6 +69,7 @@ def run(ctx):
                'default display mode beyond the largest aperture clamps to 0.999*a_max by design: the accepted band is [interpolant at 0.999 a_max, value at a_max] widened by 1.2e-3', 'which curve of a fit\'s block belongs to which aperture is not part of the statement: a one-to-one assignment of curves to the shown apertures must exist',
                'stored predictions (model_fluxes) are themselves checked against truth by C04')
     ctx.require_events('plot:call', 'curve-point:checked', 'curve-point:truth-checked')
+    ctx.require_events('plot:called-with-positional-arguments')
     ctx.require_regimes('av:negative-among-best-fits', 'mode:interp', 'mode:largest', 'mode:largest+smallest', 'mode:all', 'input:object', 'input:file', 'multi-aperture', 'single-aperture',
                         'cube:asc', 'cube:desc', 'selected>=2', 'beyond-table', 'filters:unsorted', 'two-sources-share-a-model', 'filters-share-an-aperture', 'filters>=12-distinct-apertures', 'cube:unit-not-mJy', 'filters:other-unit', 'law:not-in-micron')
     n_pk = 5 if ctx.quick else 100
@@ -203,7 +207,12 @@ def run(ctx):
                 wit = dict(mode=mode, input=form, selected=nsel, multi=multi, cube_desc=desc, theta=theta, band_wav=wav, n_ap=n_ap,
                            apertures=truth.apertures, distance_range=dr)
                 try:
-                    figs = plot(inp, output_dir=None, sed_type=mode, select_format=sel)
+                    CALLS[0] += 1
+                    if CALLS[0] % 2:
+                        figs = plot(inp, output_dir=None, sed_type=mode, select_format=sel)
+                    else:          # the same call with positional arguments, in the documented order of the signature
+                        figs = plot(inp, None, sel, None, 'A', mode)
+                        ctx.event('plot:called-with-positional-arguments')
                     plt.close('all')
                 except Exception as exc:
                     ctx.raised(exc, 'plot:raised:%s:%s' % (mode, type(exc).__name__), 'plot() raised: %r' % (exc,), wit)
